@@ -193,7 +193,8 @@ def histOK (t : Token) : Bool :=
   match t.ttype with
   | none => true
   | some ty => ty == .WORD || ty == .ASSIGNMENT_WORD || ty == .SEMICOLON || ty == .AND_AND
-      || ty == .OR_OR || ty == .BAR || ty == .NEWLINE || ty == .AMPERSAND
+      || ty == .OR_OR || ty == .BAR || ty == .NEWLINE || ty == .AMPERSAND || ty == .GREATER
+      || ty == .LESS || ty == .GREATER_GREATER
 
 theorem histOK_is {t : Token} (h : histOK t = true) :
     t.is .FOR = false ∧ t.is .CASE = false ∧ t.is .SELECT = false ∧ t.is .ARITH_FOR_EXPRS = false ∧
@@ -214,6 +215,12 @@ def shiftH (l : Local) : Local :=
 /-- the parser object after `tokenizer.token()` delivered `tok` -/
 def afterTok (l : Local) (tok : Token) : Local :=
   { shiftH l with currentToken := tok, ps := { l.ps with eoftoken := false } }
+
+/-- the parser-state flags the assignment bookkeeping reads -/
+structure PSOK (l : Local) : Prop where
+  cp : l.ps.casepat = false
+  rl : l.ps.redirlist = false
+  ca : l.ps.compassign = false
 
 theorem WOK.shiftH {l : Local} (h : WOK l) : WOK (shiftH l) :=
   ⟨h.tape, h.eol, h.pos, h.regexp, h.esacs, h.brc, h.redir⟩
